@@ -23,7 +23,12 @@ type vxPayload struct {
 // (upper or lower, decided by the solver), the remaining letters follow one of three concrete
 // styles (UPPER, lower, aLtErNaTiNg). (The parser's keyword conversion branches per letter, so
 // making every letter symbolic would cost 2^len paths for nothing.)
+var vxFixedCase = false // the operand harness keeps function names as written (case is VxC16_Closure's subject)
+
 func vxCased(word string) string {
+	if vxFixedCase {
+		return word
+	}
 	style := vx.Choice(3)
 	b := []byte(word)
 	n := 0
@@ -107,6 +112,50 @@ func vxHas(r *ScanResult, pat PatternType, sev Severity) bool {
 	return false
 }
 
+// operand wrappers: where inside a condition the payload sits (composed two deep)
+var vxOperandWraps = []vxPosition{
+	{"itself", func(p string) string { return p }},
+	{"paren", func(p string) string { return "( ( " + p + " ) )" }},
+	{"and-right", func(p string) string { return "b = 2 AND " + p }},
+	{"and-left", func(p string) string { return p + " AND b = 2" }},
+	{"or-right", func(p string) string { return "b = 2 OR " + p }},
+	{"or-left", func(p string) string { return p + " OR b = 2" }},
+	{"not", func(p string) string { return "NOT ( " + p + " )" }},
+}
+
+// statement frames, upper and lower case
+var vxFrames = []vxPosition{
+	{"where", func(p string) string { return "SELECT a FROM t WHERE " + p }},
+	{"having", func(p string) string { return "SELECT a FROM t GROUP BY a HAVING " + p }},
+	{"update-where", func(p string) string { return "UPDATE t SET a = 1 WHERE " + p }},
+	{"delete-where", func(p string) string { return "DELETE FROM t WHERE " + p }},
+	{"union-arm", func(p string) string { return "SELECT a FROM t UNION SELECT b FROM u WHERE " + p }},
+	{"union-arm-lower", func(p string) string { return "select a from t union all select b from u where " + p }},
+	{"except-lower", func(p string) string { return "select a from t except select b from u where " + p }},
+	{"layout", func(p string) string { return "select a\n\tfrom t -- c\n where /* x */ " + p }},
+}
+
+// VxC16_Operands: payload x (operand wrapper o operand wrapper) x frame; the scanned tree is frozen.
+func VxC16_Operands() {
+	vxFixedCase = true
+	pl := vxPayloads[vx.Choice(len(vxPayloads))]
+	w1 := vxOperandWraps[vx.Choice(len(vxOperandWraps))]
+	w2 := vxOperandWraps[vx.Choice(len(vxOperandWraps))]
+	fr := vxFrames[vx.Choice(len(vxFrames))]
+	sql := fr.wrap(w2.wrap(w1.wrap(pl.build())))
+	vx.Notef("payload=%s operand=%s in %s frame=%s sql=%q", pl.name, w1.name, w2.name, fr.name, sql)
+	tree, err := gosqlx.Parse(sql)
+	if err != nil {
+		vx.Notef("parse error: %v", err)
+		vx.Assertf("C16.template_parses", false, "template does not parse: %v", err)
+		return
+	}
+	vx.Freeze(tree, "C16.tree_unchanged scanned tree")
+	res := NewScanner().Scan(tree)
+	vx.Unfreeze()
+	vx.Assertf("C16.reported", vxHas(res, pl.pattern, pl.severity), "payload %s (%s/%s) not reported as %s inside %s, frame %s", pl.name, pl.pattern, pl.severity, w1.name, w2.name, fr.name)
+}
+
 func vxClosure(positions []vxPosition, id string) {
 	pl := vxPayloads[vx.Choice(len(vxPayloads))]
 	pos := positions[vx.Choice(len(positions))]
@@ -138,7 +187,9 @@ var vxScanTexts = []string{
 	"SELECT a FROM t WHERE b = 2",
 }
 
-func vxKey(f Finding) string { return string(f.Pattern) + "/" + string(f.Severity) + "/" + f.Description }
+func vxKey(f Finding) string {
+	return string(f.Pattern) + "/" + string(f.Severity) + "/" + f.Description
+}
 
 func VxC16_Threshold() {
 	sql := vxScanTexts[vx.Choice(len(vxScanTexts))]
